@@ -472,10 +472,14 @@ def c01(ctx):
     ctx.floor("R9", len(pairs), 2, "zips in quantile routines")
     only = {("QuantileExt", "quantiles_axis_mut"), ("QuantileExt", "quantile_axis_mut"), ("Quantile1dExt", "quantile_mut"), ("Quantile1dExt", "quantiles_mut")}
     RG.rule_r6(ctx, prog, only=only)
+    # the neighbours looked up are the order statistics: bulk selection (proved, see C02) on the partition contract
+    RSG.rule_r25_bulk_selection(ctx, prog)
+    RSG.rule_r22_partition(ctx, prog)
     return dict(
         level="other",
-        explanation="The INTERPOLATION LAYER of C01 only, relative to C02 (that bulk selection returns the true order statistics at the "
-                    "requested positions is NOT decided): (R19) the index arithmetic is (N−1)q with floor / ceil / fract, read off the MIR "
+        explanation="The interpolation layer of C01 and the bulk selection beneath it, in exact arithmetic (floating-point rounding, the "
+                    "integer 'within one unit' clause and representability are NOT decided): (R25/R22) for every requested index the bulk "
+                    "selection stores the element a full sort places there (proved for all inputs and pivot sequences, see C02); (R19) the index arithmetic is (N−1)q with floor / ceil / fract, read off the MIR "
                     "with helpers inlined; the strategy table – Lower/Higher select, Nearest takes lower iff fract < 0.5 with higher its "
                     "complement, Midpoint = (lower+higher)/2 and Linear = lower + fract·(higher−lower) by CAS on the extracted terms, "
                     "needs_lower/needs_higher per strategy; (R13) the bulk routine stores into the j-th result I::interpolate of the "
@@ -530,15 +534,25 @@ def c02(ctx):
            "the result map is not built by zipping the sorted index list with the values", what="bulk result not keyed in increasing index order")
     return dict(
         level="other",
-        explanation="SINGLE selection (get_from_sorted_mut) is proved for every input and every pivot sequence: (R24) each of its return "
+        explanation="Both selection routines are proved. SINGLE selection (get_from_sorted_mut) is proved for every input and every pivot sequence: (R24) each of its return "
                     "paths is executed abstractly with the contract of partition_mut (proved by R22/R18) and the induction hypothesis for "
                     "the recursive call on the strictly shorter sub-view that contains position i (index shifted by exactly the slice "
                     "start), relations between the value symbols (pivot value, returned value) closed under transitivity; the "
                     "postcondition a[i] = r, ∀x<i a[x] ≤ r, ∀x>i a[x] ≥ r follows on all paths; the pivot index is an unconstrained value, "
                     "so the proof covers all pivot sequences; (R4) only swaps move data, so r is exactly the element a full sort places at "
-                    "position i. BULK selection: only the structural clause is decided – one entry per distinct requested index, in "
-                    "increasing index order (R12 sorted+deduped, R9 index/value zip). That each bulk entry equals the single selection "
-                    "(the divide-and-conquer with index rebasing) is NOT decided. Assumes Ord is a lawful total order.",
+                    "position i. BULK selection (R25): the recursive routine is proved by representative-element abstract execution: one "
+                    "arbitrary position t of the index list (entry value j) is followed through every entry→return path with a three-way "
+                    "case split against the binary-search split point; the rest of the index list is described by universally quantified "
+                    "range facts (strictly increasing ranges, bounds relative to the partition index, a pending rebasing amount); the "
+                    "contracts of partition_mut (R22/R18), slice::binary_search, split_at_mut, the rebasing closure/loop (evaluated "
+                    "symbolically to x − (k+1), shown not to wrap) and the induction hypothesis are used, and the hypothesis' "
+                    "precondition (strictly increasing, in bounds of the sub-view after rebasing by exactly its start, index and value "
+                    "slices covering the same positions) is PROVED at both recursive calls; on return values[t] = w with array[j] = w, "
+                    "everything before j ≤ w and everything after ≥ w. The wrapper enters it with the whole array, a private copy of the "
+                    "index list and one slot per index, and returns the pairs (indexes[t], values[t]) in list order; the list is sorted "
+                    "and deduplicated at every call site (R12) and bounds-checked (R5) – for the quantile call sites in-bounds-ness "
+                    "rests on q ∈ [0,1] (guard, C17) and the floor/ceil index formula (C01). Partial correctness; "
+                    "assumes Ord is a lawful total order.",
     )
 
 
@@ -547,9 +561,9 @@ PROPS = {"C01": c01, "C02": c02, "C08": c08, "C06": c06, "C15": c15, "C18": c18,
 
 # rules with a planted must-fire positive in /verif/fixtures, per property (run on every check)
 FIXTURE_RULES = {
-    "C02": ["R22", "R18", "R4"],
+    "C02": ["R22", "R18", "R4", "R24", "R25"],
     "C08": ["R8", "R1"],
-    "C01": ["R19", "R8", "R9", "R6"],
+    "C01": ["R19", "R8", "R9", "R6", "R25", "R22"],
     "C03": ["R4", "R1"], "C04": ["R3", "R14", "R1", "R21"], "C05": ["R6", "R1"], "C06": ["R9", "R1", "R8", "R19"], "C07": ["R9", "R8", "R6", "R19"],
     "C09": ["R9", "R1", "R19", "R6"], "C10": ["R10", "R9", "R1", "R6"], "C11": ["R8", "R9"], "C12": ["R6", "R8"], "C13": ["R9"],
     "C14": ["R8", "R6"], "C15": ["R18", "R5", "R22"], "C16": ["R5", "R18"], "C17": ["R6"], "C18": ["R9", "R8", "R6", "R19"], "C20": ["R1", "R8", "R9"],
